@@ -77,7 +77,6 @@ def optimize_prec_assignment(model: MPS,
                     raise ValueError("Unsupported quantizer type")
 
                 best_cost = copy.deepcopy(base_cost)
-                best_cost_w_theta_alpha_array = copy.deepcopy(w_theta_alpha_array)
                 config_cost = _compute_cost(model, layer, w_theta_alpha_array, cost_fn_map, lname, node)
                 assert config_cost == base_cost, "The cost of the layer is not consistent with the original configuration"
 
@@ -86,6 +85,8 @@ def optimize_prec_assignment(model: MPS,
 
                 # Case 1: assign a channel at a time to a higher precision. Save the configuration if the cost decreases
                 w_theta_alpha_array_tmp = [copy.deepcopy(w_theta_alpha_array)[i] for i in sorted_indexes]
+                # NB: the best configuration is kept in the same (sorted) order of the tmp array
+                best_cost_w_theta_alpha_array = copy.deepcopy(w_theta_alpha_array_tmp)
 
                 for i in range(len(sorted_precisions)):
                     if sorted_precisions[i] == 0:
@@ -136,13 +137,17 @@ def optimize_prec_assignment(model: MPS,
                 best_model_cost += best_cost
 
                 # Sort the best configuration according to the original order of the precisions
-                best_theta_alpha_array = torch.tensor([best_cost_w_theta_alpha_array[i] for i in sorted_indexes])
+                # back from the sorted order to the order of the precisions in the quantizer
+                best_theta_alpha_array = torch.zeros(len(sorted_indexes))
+                for k, i in enumerate(sorted_indexes):
+                    best_theta_alpha_array[i] = best_cost_w_theta_alpha_array[k]
                 best_theta_alpha_array = torch.mul(best_theta_alpha_array, layer.w_mps_quantizer.theta_alpha.shape[1])
 
                 # Update the layer with the best configuration.
                 # Modify only the alpha parameter of each layer, and not the theta_alpha, to avoid
                 # any conflict in the case of parallel branches.
-                new_alpha = _reassign_precisions(best_theta_alpha_array, layer.w_mps_quantizer.alpha)
+                new_alpha = _reassign_precisions(best_theta_alpha_array, layer.w_mps_quantizer.alpha,
+                                                 sorted_indexes)
                 layer.w_mps_quantizer.alpha.data = new_alpha.clone()
 
             elif model.full_cost:
@@ -182,65 +187,56 @@ def _compute_cost(model, layer, w_theta_alpha_array, cost_fn_map, lname, node):
     return config_cost
 
 
-def _reassign_precisions(best, scores):
+def _reassign_precisions(best, scores, order=None):
     """Reassign the precisions of the channels based on the given alpha values.
     The reassignment algorithm is greedy, and tries to assign to each precision the
-    channels which have the highest alpha value for that precision.
+    channels which have the highest alpha value for that precision. Each channel is assigned
+    exactly one precision and the target count of every precision is met.
+
+    :param best: tensor with the desired number of channels for each precision
+    (the counts must sum to the number of channels)
+    :type best: torch.Tensor
+    :param scores: tensor with the alpha values of the channels
+    :type scores: torch.Tensor
+    :param order: the order in which precisions are visited, e.g., the indices that sort them
+    by increasing bit-width: the channels exceeding the target count of a precision are handed
+    over to the following ones, so that channels only move forward in this order (whenever the
+    target counts allow it). Defaults to the order of the rows of `scores`.
+    :type order: Optional[Iterable[int]]
+    :return: tensor with the new alpha values
+    :rtype: torch.Tensor
     """
     num_precisions, num_channels = scores.size()
-
-    # Extract the current assignments (precision with the highest alpha for each channel).
-    # Then, sort the channels for each precision by their alpha values
+    order = list(range(num_precisions)) if order is None else [int(i) for i in order]
+    targets = [int(round(float(best[prec]))) for prec in range(num_precisions)]
     current_assignment = torch.argmax(scores, dim=0)
-    sorted_indices = torch.argsort(scores, dim=1, descending=True)
-    new_assignment = current_assignment.clone()  # Empty list to store new assignments
+    new_assignment = torch.full((num_channels,), -1, dtype=torch.long)
 
-    # Enforce the new cardinality
-    for prec in range(num_precisions):
-        # Get the number of channels that should be assigned to this precision
-        target_count = int(best[prec].item())
+    def _by_score(channels, prec):
+        return sorted(channels, key=lambda c: float(scores[prec, c]), reverse=True)
 
-        # If no channels must have this precision, reassign all the channels at the
-        # current precision.
-        if target_count == 0:
-            prec_indices = (current_assignment == prec).nonzero(as_tuple=True)[0]
-            new_assignment[prec_indices] = -1  # Temporarily mark as unassigned
-            continue
+    # First pass: each precision keeps, among its own channels and those handed over by the
+    # previous precisions, the ones with the highest alpha, up to its target count
+    pool = []
+    for prec in order:
+        own = (current_assignment == prec).nonzero(as_tuple=True)[0].tolist()
+        candidates = _by_score(pool + own, prec)
+        for channel in candidates[:targets[prec]]:
+            new_assignment[channel] = prec
+        pool = candidates[targets[prec]:]
 
-        # If at least one channel should have the current precision, assign the top
-        # 'target_count' channels to this precision.
-        # First, get the indices of channels currently assigned to this precision and
-        # the top 'target_count' channels for this precision based on the alpha values
-        prec_indices = (current_assignment == prec).nonzero(as_tuple=True)[0]
-        top_indices = sorted_indices[prec][:target_count]
+    # Second pass: the channels left unassigned fill the remaining deficits
+    for prec in order:
+        deficit = targets[prec] - int((new_assignment == prec).sum().item())
+        if deficit > 0 and len(pool) > 0:
+            pool = _by_score(pool, prec)
+            for channel in pool[:deficit]:
+                new_assignment[channel] = prec
+            pool = pool[deficit:]
 
-        # Assign those top channels to this precision
-        new_assignment[top_indices] = prec
-
-        # Reassign the remaining channels
-        excess_channels = prec_indices[target_count:]
-        if len(excess_channels) > 0:
-            new_assignment[excess_channels] = -1  # Temporarily mark as unassigned
-
-    # Reassign channels marked as unassigned to precisions that need more channels
-    for prec in range(num_precisions):
-        target_count = int(best[prec].item())
-        current_count = (new_assignment == prec).sum().item()
-
-        # If there are not enough channels assigned to this precision, use the unassigned channels
-        if current_count < target_count:
-            unassigned_channels = (new_assignment == -1).nonzero(as_tuple=True)[0]
-            channels_needed = target_count - current_count
-
-            # Get the top 'channels_needed' channels for this precision and reassign them
-            top_unassigned = sorted_indices[prec][torch.isin(sorted_indices[prec], unassigned_channels)][:channels_needed]
-            new_assignment[top_unassigned] = prec
-
-    # Create the binary assignment matrix, that will replace the original alpha matrix
     binary_matrix = torch.zeros_like(scores)
-
     for channel in range(num_channels):
         assigned_prec = new_assignment[channel]
-        if assigned_prec != -1:  # Only assign if the channel has been reassigned
+        if assigned_prec != -1:
             binary_matrix[assigned_prec, channel] = 1
     return binary_matrix
